@@ -4,6 +4,11 @@ import spydrnet as sdn
 from spydrnet.ir.outerpin import OuterPin as BaseOuterPin
 
 
+def is_leaf_def(d):
+    """The documented meaning of 'leaf', read off the containers themselves (never the library's own is_leaf answer)."""
+    return len(d.children) == 0 and len(d.cables) == 0
+
+
 class UF:
     def __init__(self):
         self.p = {}
@@ -60,7 +65,7 @@ class Elab:
                     if isinstance(p, BaseOuterPin):
                         child, ip = p.instance, p.inner_pin
                         cpid = pid + (id(child),)
-                        if child.reference.is_leaf():
+                        if is_leaf_def(child.reference):
                             uf.union(node, ("e", cpid, id(ip)))
                         elif ip.wire is not None:
                             uf.union(node, ("w", cpid, id(ip.wire)))
@@ -80,7 +85,7 @@ class Elab:
                 self.truncated = True
                 return
             r = ch.reference
-            if r.is_leaf():
+            if is_leaf_def(r):
                 self.leaf_occ.append(cp)
                 cpid = self.pid(cp)
                 for port in r.ports:
